@@ -36,7 +36,9 @@ func cmdTTLRun(args []string) int {
 		return 2
 	}
 	defer eng.Close()
-	names := []string{"/a", "/events/n/e1", "/events/n/e2", "/events/n/e3", "/pods/events/p1"}
+	// (key numbers are only handles here; 6 and 7 are siblings of the events directory whose names merely
+	// start with "events": a custom resource group and another resource)
+	names := []string{"/a", "/events/n/e1", "/events/n/e2", "/events/n/e3", "/pods/events/p1", "/events.example.io/widgets/n/w0", "/eventsinks/n/s1"}
 	env := kb.NewEnv(kb.Options{Engine: eng, KeyNames: names, Gated: false, Record: false, Base: 100})
 	ctx := context.Background()
 	var evs []gate.Event
@@ -65,7 +67,9 @@ func cmdTTLRun(args []string) int {
 	_, ok2 := create(2, "event-1")
 	r3, ok3 := create(3, "event-2")
 	_, ok5 := create(5, "pod-in-namespace-events")
-	expect("setup: four creates succeed", ok1 && ok2 && ok3 && ok5)
+	_, ok6 := create(6, "custom-resource-of-group-events.example.io")
+	_, ok7 := create(7, "resource-eventsinks")
+	expect("setup: six creates succeed", ok1 && ok2 && ok3 && ok5 && ok6 && ok7)
 	time.Sleep(300 * time.Millisecond)
 	u, uerr := env.B.Update(ctx, &proto.UpdateRequest{Kv: &proto.KeyValue{Key: env.Keys.Raw(3), Value: []byte("event-2-updated"), Revision: r3}})
 	expect("setup: guarded update of the second Event succeeds", uerr == nil && u.Succeeded)
@@ -82,6 +86,10 @@ func cmdTTLRun(args []string) int {
 	expect("a key that merely contains /events/ (a pod in namespace events) is not expired", p && v == "pod-in-namespace-events")
 	p, _ = present(1)
 	expect("a non-event key is not expired", p)
+	p, v = present(6)
+	expect("a key in a sibling directory whose name starts with events (events.example.io) is not expired", p && v == "custom-resource-of-group-events.example.io")
+	p, v = present(7)
+	expect("a key in a sibling directory whose name starts with events (eventsinks) is not expired", p && v == "resource-eventsinks")
 	p, v = present(3)
 	expect("an Event rewritten after its creation keeps index and newest version together (readable with the new value, or gone wholly)", (p && v == "event-2-updated") || !p)
 	if p {
